@@ -43,9 +43,13 @@ type pwCfg struct {
 	Kinds   []string // per pod: "elastic", "fixed-ttl", "fixed-never", "two" (two interfaces: fixed-ttl + elastic), "two-fixed" (ttl + never)
 	Faults  bool
 	Foreign bool // foreign interfaces populate the cloud (leak collector)
+	SplitGC bool // the record collector may be preempted between its reads and its writes (gcCR/begin ... gcCR/end); single-pod worlds only
 }
 
 func (c pwCfg) String() string {
+	if c.SplitGC {
+		return fmt.Sprintf("trunk=%v pods=%v faults=%v splitGC", c.Trunk, c.Kinds, c.Faults)
+	}
 	return fmt.Sprintf("trunk=%v pods=%v faults=%v", c.Trunk, c.Kinds, c.Faults)
 }
 
@@ -70,10 +74,21 @@ type pw struct {
 	logMark      int
 	created      map[string]bool // interfaces created by the pod controller (by id)
 	lastCR       map[string]*v1beta1.PodENI
+	crGen        map[string]int // record name -> how many times a PodENI of that name has been created (incarnation)
+	capturing    bool        // gcCR/begin is running: the collector's status writes are held back, not applied
+	pendingGC    []pendingWr // writes the preempted collector has decided on and not yet issued (applied by gcCR/end)
+}
+
+// pendingWr is one status write of the record collector that is still to reach the API server.
+type pendingWr struct {
+	kind string // Update (carries the resourceVersion it read) | Patch (merge patch, no precondition)
+	gen  int    // incarnation of the record the collector read
+	obj  *v1beta1.PodENI
+	do   func() error
 }
 
 func newPW(cfg pwCfg) *pw {
-	w := &pw{cfg: cfg, cloud: simcloud.NewCluster(), gen: map[int]int{}, node: map[int]string{}, prevPhase: map[string]string{}, hadCR: map[string]bool{}, created: map[string]bool{}}
+	w := &pw{cfg: cfg, cloud: simcloud.NewCluster(), gen: map[int]int{}, node: map[int]string{}, prevPhase: map[string]string{}, hadCR: map[string]bool{}, created: map[string]bool{}, crGen: map[string]int{}}
 	trunk := cfg.Trunk
 	controlplane.SetConfig(&controlplane.Config{ClusterID: "c1", VPCID: "vpc-1", EnableTrunk: &trunk, IPStack: "ipv4", IPAMType: "default"})
 	objs := []client.Object{}
@@ -99,7 +114,40 @@ func newPW(cfg pwCfg) *pw {
 				w.failCreateCR = false
 				return fmt.Errorf("simulated API server failure creating the PodENI")
 			}
-			return c.Create(ctx, obj, opts...)
+			err := c.Create(ctx, obj, opts...)
+			if _, ok := obj.(*v1beta1.PodENI); ok && err == nil {
+				w.crGen[obj.GetName()]++
+			}
+			return err
+		}, SubResourceUpdate: func(ctx context.Context, c client.Client, sub string, obj client.Object, opts ...client.SubResourceUpdateOption) error {
+			if pe, ok := obj.(*v1beta1.PodENI); ok && w.capturing {
+				held := pe.DeepCopy()
+				gen := w.crGen[held.Name]
+				w.pendingGC = append(w.pendingGC, pendingWr{"Update", gen, held, func() error {
+					// the fake API server numbers resourceVersions per object, so a record deleted and created again can
+					// repeat one; a real server never reuses a resourceVersion and checks the UID: an update read from an
+					// earlier incarnation of the name is refused
+					if w.crGen[held.Name] != gen {
+						return apierrors.NewConflict(v1beta1.Resource("podenis"), held.Name, fmt.Errorf("the object has been deleted and created again"))
+					}
+					return c.SubResource(sub).Update(context.Background(), held, opts...)
+				}})
+				return nil
+			}
+			return c.SubResource(sub).Update(ctx, obj, opts...)
+		}, SubResourcePatch: func(ctx context.Context, c client.Client, sub string, obj client.Object, patch client.Patch, opts ...client.SubResourcePatchOption) error {
+			if pe, ok := obj.(*v1beta1.PodENI); ok && w.capturing {
+				held := pe.DeepCopy()
+				data, err := patch.Data(held) // what goes on the wire is fixed when the call is made
+				if err != nil {
+					return err
+				}
+				w.pendingGC = append(w.pendingGC, pendingWr{"Patch", w.crGen[held.Name], held, func() error {
+					return c.SubResource(sub).Patch(context.Background(), held, client.RawPatch(patch.Type(), data), opts...)
+				}})
+				return nil
+			}
+			return c.SubResource(sub).Patch(ctx, obj, patch, opts...)
 		}, Get: func(ctx context.Context, c client.WithWatch, key client.ObjectKey, obj client.Object, opts ...client.GetOption) error {
 			if _, ok := obj.(*corev1.Pod); ok && w.failPodGet && w.inCtl {
 				w.failPodGet = false
@@ -151,7 +199,15 @@ func (w *pw) Enabled() []string {
 			evs = append(evs, fmt.Sprintf("reconcilePodENI:%d", i))
 		}
 	}
-	evs = append(evs, "gcCR", "gcENI", "clock+61s", "clock+ttl-1s", "clock+ttl+1s", "clock+10m1s")
+	switch {
+	case len(w.pendingGC) > 0:
+		evs = append(evs, "gcCR/end") // one collector goroutine: no second pass while the first is preempted
+	case w.cfg.SplitGC && len(w.cfg.Kinds) == 1:
+		evs = append(evs, "gcCR", "gcCR/begin")
+	default:
+		evs = append(evs, "gcCR")
+	}
+	evs = append(evs, "gcENI", "clock+61s", "clock+ttl-1s", "clock+ttl+1s", "clock+10m1s")
 	if w.cfg.Faults && len(w.cloud.Armed) == 0 && !w.failCreateCR && !w.failPodGet {
 		evs = append(evs, "fault:Create:before", "fault:Attach:before", "fault:Detach:before", "fault:Delete:before", "fault:Delete:after", "fault:crCreate", "fault:podGet")
 	}
@@ -252,6 +308,17 @@ func (w *pw) Apply(x *vrt.Exec, evn string) {
 		w.inCtl = true
 		w.ec.gcCRPodENIs(ctx)
 		w.inCtl = false
+	case "gcCR/begin":
+		// the collector lists, reads and decides; its writes are held back until gcCR/end (exact for one record: the
+		// collector issues at most one write per record and never reads its result)
+		w.inCtl, w.capturing = true, true
+		w.ec.gcCRPodENIs(ctx)
+		w.inCtl, w.capturing = false, false
+	case "gcCR/end":
+		for _, p := range w.pendingGC {
+			_ = p.do()
+		}
+		w.pendingGC = nil
 	case "gcENI":
 		w.inCtl = true
 		w.ec.gcSecondaryENI(ctx)
@@ -391,7 +458,7 @@ func (w *pw) Apply(x *vrt.Exec, evn string) {
 		switch {
 		case never:
 			x.Failf("C11/fixed-never-record-released", "record %s (an allocation with strategy Never) moved to Deleting/removed on %s; %s", name, evn, hist)
-		case evn != "gcCR":
+		case evn != "gcCR" && evn != "gcCR/end":
 			x.Failf("C11/fixed-record-released-outside-collector", "fixed-IP record %s moved to Deleting/removed by %s; %s", name, evn, hist)
 		case age < ttl:
 			x.Failf("C11/fixed-record-released-before-ttl", "fixed-IP record %s released %v after the pod was last seen, TTL %v; %s", name, age, ttl, hist)
@@ -461,7 +528,19 @@ func (w *pw) Canon() string {
 		}
 		ages = append(ages, id+":"+a)
 	}
-	return fmt.Sprintf("%v CLOUD:%s AGES:%v armed=%s failCR=%v failPodGet=%v", parts, w.cloud.Canon(), ages, armed, w.failCreateCR, w.failPodGet)
+	var pend []string
+	for _, pw := range w.pendingGC {
+		cur := &v1beta1.PodENI{}
+		state := "record-gone"
+		if err := w.c.Get(context.Background(), client.ObjectKeyFromObject(pw.obj), cur); err == nil {
+			state = "record-changed"
+			if cur.ResourceVersion == pw.obj.ResourceVersion && pw.gen == w.crGen[pw.obj.Name] {
+				state = "record-unchanged"
+			}
+		}
+		pend = append(pend, fmt.Sprintf("%s %s phase=%s %s", pw.kind, pw.obj.Name, pw.obj.Status.Phase, state))
+	}
+	return fmt.Sprintf("%v CLOUD:%s AGES:%v armed=%s failCR=%v failPodGet=%v pendingGC=%v", parts, w.cloud.Canon(), ages, armed, w.failCreateCR, w.failPodGet, pend)
 }
 
 // closure: healthy loop from the current state
@@ -471,6 +550,23 @@ func (w *pw) closure(x *vrt.Exec, hist []string) {
 	w.failCreateCR = false
 	w.failPodGet = false
 	ctx := context.Background()
+	if len(w.pendingGC) > 0 {
+		// a preempted collector: the controllers settle first, then its held writes land, then the controllers run again -
+		// every step through Apply, so the transition oracles (phase relation, no interface pulled from a running pod) judge it
+		for round := 0; round < 4; round++ {
+			for i := range w.cfg.Kinds {
+				w.Apply(x, fmt.Sprintf("reconcilePod:%d", i))
+				w.Apply(x, fmt.Sprintf("reconcilePodENI:%d", i))
+			}
+		}
+		w.Apply(x, "gcCR/end")
+		for round := 0; round < 2; round++ {
+			for i := range w.cfg.Kinds {
+				w.Apply(x, fmt.Sprintf("reconcilePod:%d", i))
+				w.Apply(x, fmt.Sprintf("reconcilePodENI:%d", i))
+			}
+		}
+	}
 	// remember what must survive
 	type keep struct{ eni, ip string }
 	fixedBefore := map[int][]keep{}
@@ -637,6 +733,9 @@ func (w *pw) alphabet() []string {
 		evs = append(evs, fmt.Sprintf("podCreate:%d:node-1", i), fmt.Sprintf("podCreate:%d:node-2", i), fmt.Sprintf("podRemove:%d", i), fmt.Sprintf("podExit:%d", i), fmt.Sprintf("reconcilePod:%d", i), fmt.Sprintf("reconcilePodENI:%d", i))
 	}
 	evs = append(evs, "gcCR", "gcENI", "clock+61s", "clock+ttl-1s", "clock+ttl+1s", "clock+10m1s")
+	if w.cfg.SplitGC && len(w.cfg.Kinds) == 1 {
+		evs = append(evs, "gcCR/begin")
+	}
 	if w.cfg.Faults {
 		evs = append(evs, "fault:Create:before", "fault:Attach:before", "fault:Detach:before", "fault:Delete:before", "fault:Delete:after", "fault:crCreate", "fault:podGet")
 	}
